@@ -180,7 +180,11 @@ func (e *Enc) invoke(fr *Frame, st *State, cc *ssa.CallCommon, recv *Val, args [
 			names := []string{c.RecvName()}
 			sig := cc.Signature()
 			for i := 0; i < sig.Params().Len(); i++ {
-				names = append(names, sig.Params().At(i).Name())
+				n := sig.Params().At(i).Name()
+				if n == "" || n == "_" {
+					n = fmt.Sprintf("arg%d", i)
+				}
+				names = append(names, n)
 			}
 			all := append([]*Val{recv}, args...)
 			e.assume(st, not(eq(recv.S[0], "0"))) // nil interface call panics
@@ -349,6 +353,9 @@ func (e *Enc) modularCall(fr *Frame, st *State, c *FuncContract, names []string,
 			st.heap[n] = nw
 		}
 	}
+	for _, gs := range c.GhostSets {
+		e.specAssume(st, &SExpr{Op: "bin", Name: "==", Args: []*SExpr{gs.L, gs.R}}, env2)
+	}
 	for _, cl := range c.Ensures {
 		e.specAssume(st, cl.E, env2)
 	}
@@ -357,7 +364,9 @@ func (e *Enc) modularCall(fr *Frame, st *State, c *FuncContract, names []string,
 }
 
 func (e *Enc) bindResults(vars map[string]*Val, res *Val, sig *types.Signature) {
-	vars["result"] = res
+	if _, clash := vars["result"]; !clash {
+		vars["result"] = res
+	}
 	if res.K == KTuple {
 		for i, f := range res.F {
 			vars[fmt.Sprintf("result%d", i)] = f
@@ -742,7 +751,11 @@ func (e *Enc) callWriteSet(fr *Frame, li *loopInfo, st *State, cc *ssa.CallCommo
 				names := []string{c.RecvName()}
 				tys := []types.Type{cc.Value.Type()}
 				for i := 0; i < sig.Params().Len(); i++ {
-					names = append(names, sig.Params().At(i).Name())
+					n := sig.Params().At(i).Name()
+					if n == "" || n == "_" {
+						n = fmt.Sprintf("arg%d", i)
+					}
+					names = append(names, n)
 					tys = append(tys, sig.Params().At(i).Type())
 				}
 				e.contractWriteSet(c, names, tys, ws, all)
